@@ -89,7 +89,7 @@ def gen(seed, tier):
         for _ in range(rng.randrange(8, 15)):
             row = [rng.choice(VALS[:small_vals + 2]) for _ in range(KEYS[ki][1])]
             ops.append(['assert', rng.random() < 0.2, 'fact', 'inline', ki, row])
-    for _ in range(rng.randrange(2, 31)):
+    for _ in range(rng.randrange(2, 31 * (2 if tier == 'thorough' else 1))):
         ki = rng.choice(keyset)
         ar = KEYS[ki][1]
         k = rng.random()
